@@ -1,5 +1,7 @@
 import Hive.Proofs.KVConcMore
 import Hive.Proofs.KVConcHist
+import Hive.Proofs.KVConcClosed
+import Hive.Proofs.KVLinWiden
 import Hive.Proofs.KVLin
 import Hive.Gen.C05_Skel
 import Hive.Gen.C05_Src
@@ -69,6 +71,24 @@ theorem C05_linearizable_close (scripts : List (List COp)) (c : Cfg Shared Threa
     (hr : Reach sys (initCfg scripts) c) : Lin.Linearizable (histOf c.1.tr).toArray :=
   Lin.validate_sound _ _ (model_history_validates hr)
 
+/-- **What a harness records of a wrapped store is linearizable.**  A harness stamps a call through a wrapper where the
+WRAPPER is invoked and where it returns: for `debug` that is before the access callback runs — in the model the `callback`
+call of its own in front of the wrapped call, which has no linearisation point and hence no operation in `histOf` — so the
+recorded operation is the model's operation with a *wider* window (`Lin.wider`: invoked no later, returned no earlier, same
+kind, same answer).  Any history that is pointwise wider than the history of a reachable trace is linearizable w.r.t. the
+full C04 contract as well (`Lin.linearizable_widen`: the same witness order works). -/
+theorem C05_recorded_wrapped_history_linearizable (scripts : List (List COp)) (c : Cfg Shared Thread)
+    (hr : Reach sys (initCfg scripts) c) (H' : List Lin.HOp) (hlen : (histOf c.1.tr).length = H'.length)
+    (hw : ∀ i, i < (histOf c.1.tr).length →
+      Lin.wider (Lin.pick (histOf c.1.tr).toArray i) (Lin.pick H'.toArray i)) :
+    Lin.Linearizable H'.toArray :=
+  Lin.linearizable_widen _ _ (by simpa using hlen) (by simpa using hw) (C05_linearizable_close scripts c hr)
+
+/-- The hypotheses are satisfiable non-trivially: in the third sample run below the recorded `Set` through `flushkv∘debug` is
+the model's `fset` operation invoked at the `callback`'s invocation (position 0 instead of 2). -/
+example : Lin.wider { inv := 2, ret := 7, kind := .data (.set [1, 2] [3]), out := .ok }
+    { inv := 0, ret := 7, kind := .data (.set [1, 2] [3]), out := .ok } := ⟨by decide, by decide, rfl, rfl⟩
+
 /-- **Model ↔ checker.**  The history of every reachable trace of the protocol model is *accepted* by
 `decideHist` — the very function `drv_c05` runs on the histories recorded from the real code (total
 Wing–Gong search with memoisation, then the validator): without a node budget outright; with the
@@ -122,6 +142,39 @@ theorem C05_iterate_snapshot (scripts : List (List COp)) (c : Cfg Shared Thread)
     rw [htr] at hok
     have := seqOkFrom_split seqInit pre post _ hok
     simpa [evOk, DOp.apply, replay] using this
+
+theorem split_at_index {α : Type} (l : List α) (p : Nat) (e : α) (h : l[p]? = some e) :
+    l = l.take p ++ e :: l.drop (p + 1) := by
+  obtain ⟨hlt, heq⟩ := List.getElem?_eq_some_iff.mp h
+  have h1 : l.drop p = e :: l.drop (p + 1) := by
+    rw [← heq]; exact (List.getElem_cons_drop ..).symm
+  calc l = l.take p ++ l.drop p := (List.take_append_drop p l).symm
+    _ = l.take p ++ e :: l.drop (p + 1) := by rw [h1]
+
+/-- **What a concurrent iteration may report: the entries that existed together at ONE instant inside its window.**  The
+clause of the statement, literally: wherever the access of an `Iterate` / `IterateKeys` call `(t, i)` sits in a reachable
+trace - position `p` - that position lies strictly between the call's invocation and its response (`retPos` = end of the
+trace while the call is still running), and the report is the range scan (C04 `Spec.iterate`: prefix, direction, consumer
+stop) of the map as it is after exactly the accesses linearised before `p` (`replay (tr.take p)`): every write that took
+effect before that instant is in it, no write after it is, whatever the writers do while the consumer runs.  The history
+checker judges the recorded iterations of the real code against the same reading (`hstep` on `.iter` / `.iterk` = `DOp.apply`). -/
+theorem C05_iterate_one_instant (scripts : List (List COp)) (c : Cfg Shared Thread)
+    (hr : Reach sys (initCfg scripts) c) (p t i : Nat) (fp : Bytes) (strip : Nat) (d : Dir) (stop : Nat) (out : Out) :
+    (c.1.tr[p]? = some (.lin t i (.eff (.iter fp strip d stop)) out) →
+      invPos c.1.tr t i < p ∧ p < retPos c.1.tr t i ∧
+      out = .kvs (Spec.iterate fp strip d stop (replay (c.1.tr.take p)).m)) ∧
+    (c.1.tr[p]? = some (.lin t i (.eff (.iterk fp strip d stop)) out) →
+      invPos c.1.tr t i < p ∧ p < retPos c.1.tr t i ∧
+      out = .keys ((Spec.iterate fp strip d stop (replay (c.1.tr.take p)).m).map (·.1))) := by
+  have hw := (C05_lin_points_in_window scripts c hr).1
+  have hs := C05_iterate_snapshot scripts c hr (c.1.tr.take p) (c.1.tr.drop (p + 1)) t i fp strip d stop out
+  constructor
+  · intro hp
+    obtain ⟨h1, h2⟩ := hw p t i _ out hp
+    exact ⟨h1, h2, hs.1 (split_at_index _ _ _ hp)⟩
+  · intro hp
+    obtain ⟨h1, h2⟩ := hw p t i _ out hp
+    exact ⟨h1, h2, hs.2 (split_at_index _ _ _ hp)⟩
 
 /-- **Well-locked (the model-level form of data-race freedom).**  In every reachable
 configuration a goroutine about to access the shared map (every access except the ghost point `nop`
@@ -250,6 +303,30 @@ theorem C05_flushkv_calls (v b : Nat) (r k x p : Bytes) (ws : List Write) :
   · rw [hc, effsOf_append_load]
   · intro s t op rest hcur hcode
     simp [step, hcur, hcode]
+
+/-- **A call that answers ErrStoreClosed made no access** — the model-level form of the repaired flushkv finding (b5d5462),
+for every call of every goroutine and in particular for the mutators of the flushkv wrapper: if the response of call `i` of
+goroutine `u` is `closed`, the trace contains no access of that call (no write took effect, no read was made).  The trailing
+`Flush()` of a flushkv mutator is the instruction `load`, which has no linearisation point and leaves the call's answer
+alone; with the unrepaired code (the `Flush()`'s ErrStoreClosed returned to the caller) this theorem is false — the
+forced-schedule scenario `flushclose` of the harness is its counterexample on the real code.
+(Proof: `closed_ret_no_eff` — the goroutine's events are accepted by `pstep` (`C05_linearizable` (2)), and an access never
+answers `closed` (`seqOk`).) -/
+theorem C05_closed_answer_means_no_effect (scripts : List (List COp)) (c : Cfg Shared Thread)
+    (hr : Reach sys (initCfg scripts) c) (u : Thread) (hu : u ∈ c.2) (i : Nat)
+    (hret : Ev.ret u.tid i .closed ∈ c.1.tr) : ∀ a o, Ev.lin u.tid i (.eff a) o ∉ c.1.tr := by
+  obtain ⟨hok, _, _, _, hnest⟩ := C05_linearizable scripts c hr
+  obtain ⟨_, hb⟩ := hnest u hu
+  have hne : ∀ e ∈ evsOf u.tid c.1.tr, ∀ t i a, e ≠ Ev.lin t i (.eff a) .closed := by
+    intro e he t i' a heq
+    have hmem : e ∈ c.1.tr := (List.mem_filter.mp he).1
+    obtain ⟨p, hp⟩ := List.mem_iff_getElem?.mp hmem
+    rw [heq] at hp
+    exact eff_out_ne_closed hok hp rfl
+  have hin : Ev.ret u.tid i .closed ∈ evsOf u.tid c.1.tr := List.mem_filter.mpr ⟨hret, by simp [Ev.tid]⟩
+  have hno := closed_ret_no_eff _ hne hb i u.tid hin
+  intro a o hm
+  exact hno u.tid a o (List.mem_filter.mpr ⟨hm, by simp [Ev.tid]⟩)
 
 /-- **The debug wrapper inside the protocol model.**  `debug`'s access callback runs before the wrapped call and outside
 every lock (`C05_source_debug`, `C05_skeleton_debug`): it is user code, modelled as a call of its own of the same goroutine
